@@ -32,12 +32,52 @@ def load_unquoted():
     return {e["key"]: e["reason"] for e in json.load(open(p))["entries"]}
 
 
+def quoted_by_interp(run, f, cfg, name, fn):
+    """Iden::quoted interpreted on every name of length <= 2 over {letters, each dialect's quote characters, a multi-byte
+    character} (length 3 over a letter and the quote characters) and each quote pair in use: the result is the name with every closing quote doubled - exactly what the
+    engines un-double.  True when decided"""
+    from itertools import product
+    from ..interp import Interp, Opaque, Unsupported, Diverged, Var
+    quotes = [('"', '"'), ("`", "`"), ("[", "]")]
+    alphabet = ["a", "_", '"', "`", "[", "]", "'", "\u00e9"]
+    bad, rows = [], 0
+    try:
+        for ql, qr in quotes:
+            words = [t_ for n in (0, 1, 2) for t_ in product(alphabet, repeat=n)] + list(product(sorted(set(["a", ql, qr, "'"])), repeat=3))
+            if True:
+                for tup in words:
+                    nm = "".join(tup)
+                    it = Interp(f)
+                    it.builtins = {IDEN + "::to_string": lambda it_, a, nm=nm: nm,
+                                   "core::str::converts::from_utf8": lambda it_, a: ("Ok", bytes(a[0]).decode("utf-8")),
+                                   "core::str::from_utf8": lambda it_, a: ("Ok", bytes(a[0]).decode("utf-8"))}
+                    got = it.call_fn(name, [Opaque("self"), Var("crate::types::Quote", [ord(ql), ord(qr)])])
+                    rows += 1
+                    want = nm.replace(qr, qr + qr)
+                    if got != want:
+                        bad.append("quoted(%r, closing %r) = %r, expected %r" % (nm, qr, got, want))
+    except (Unsupported, Diverged, UnicodeDecodeError) as e:
+        run.notes.append("C04.R1 Iden::quoted outside the interpreter's fragment (%s): decided by its shape" % e)
+        return False
+    from .. import scope
+    scope.check_bound(run, "C04.R1", "quoted:scope", f, [name], 3, cfg, "Iden::quoted (names of length <= 3)")
+    ok = not bad
+    msg = "" if ok else " - NOT: " + "; ".join(bad[:3])
+    run.ob("C04.R1", "quoted:source", ok, "Iden::quoted (interpreted on %d (name, quote) rows) transforms the whole name%s" % (rows, msg), sp=fn["sp"], cfg=cfg)
+    run.ob("C04.R1", "quoted:pattern", ok, "the replaced pattern is the closing quote byte q.1", sp=fn["sp"], cfg=cfg)
+    run.ob("C04.R1", "quoted:doubling", ok, "every closing quote in the name is written twice, nothing else changes", sp=fn["sp"], cfg=cfg)
+    run.ob("C04.R1", "quoted:single-replace", ok, "exactly one replacement is applied", sp=fn["sp"], cfg=cfg, trivial=True)
+    return True
+
+
 def check_quoted(run, f, cfg):
     name = IDEN + "::quoted"
     fn = f.fns.get(name)
     if fn is None:
         run.anchor("C04.R1", "quoted", "Iden::quoted default body not found", cfg)
         return
+    if quoted_by_interp(run, f, cfg, name, fn):
+        return check_quoted_rest(run, f, cfg)
     body = nhir(f, name)
     ps = [p for p in P.fn_paths(body) if p.out != "diverge"]
     if len(ps) != 1:
@@ -86,6 +126,10 @@ def check_quoted(run, f, cfg):
         run.ob("C04.R1", "quoted:single-replace", len(others) == 1, "exactly one replacement is applied", sp=fn["sp"], cfg=cfg)
     else:
         run.ob("C04.R1", "quoted:shape", False, "Iden::quoted does not end in a str::replace of the name", sp=fn["sp"], cfg=cfg)
+    check_quoted_rest(run, f, cfg)
+
+
+def check_quoted_rest(run, f, cfg):
     # default prepare
     t = T.fn_tir(f, IDEN + "::prepare")
     sink = [s for s in t.sinks][0] if t.sinks else None
